@@ -33,6 +33,7 @@ type layout struct {
 	BrokenK string   `json:"broken_kind,omitempty"`
 	NoItems []bool   `json:"no_items_key,omitempty"` // page has no items key at all (vs. empty list)
 	Single  []bool   `json:"single,omitempty"`       // one-element page written as a bare value instead of a list
+	Decoys  bool     `json:"decoys,omitempty"`       // first/prev/partOf on pages, next/last/current on the root
 }
 
 func (l layout) tag(p, i int) string { return fmt.Sprintf("e-%d-%d", p, i) }
@@ -81,6 +82,19 @@ func (l layout) page(p int) any {
 	m["totalItems"] = float64(len(l.Sizes) * 3)
 	if p+1 < len(l.Sizes) {
 		m[nextKey] = l.page(p + 1)
+	}
+	// navigation links that are valid ActivityStreams but are not the successor: pages point back to the first page, to their
+	// predecessor and to the collection; the root names its last page. None of them may be followed.
+	if l.Decoys {
+		if p > 0 {
+			m["first"] = "https://127.0.0.1:9/decoy/first"
+			m["prev"] = "https://127.0.0.1:9/decoy/prev"
+			m["partOf"] = "https://127.0.0.1:9/decoy/collection"
+		} else {
+			m["next"] = "https://127.0.0.1:9/decoy/next-on-root"
+			m["last"] = "https://127.0.0.1:9/decoy/last"
+			m["current"] = "https://127.0.0.1:9/decoy/current"
+		}
 	}
 	return m
 }
@@ -301,6 +315,7 @@ func TestVerifC10(t *testing.T) {
 				for _, start := range []int{0, 1, 2, 4} {
 					l := base
 					l.Ordered = ordered
+					l.Decoys = (len(pat)+start)%2 == 0
 					d := caseDesc{l, pat, start}
 					c.R.Evaluations++
 					c.Guard("paging:", d, func() { runCase(c, d) })
@@ -418,6 +433,14 @@ func remoteCase(c *ev.Ctx, s *sim.Sim, r *rand.Rand, n int) {
 		}
 		doc[key] = items
 		doc["totalItems"] = 99.0
+		if p > 0 && r.Intn(2) == 0 {
+			doc["first"], doc["partOf"] = addr(1), base
+			if p > 1 {
+				doc["prev"] = addr(p - 1)
+			}
+		} else if p == 0 && r.Intn(2) == 0 {
+			doc["last"], doc["current"] = addr(np), addr(1)
+		}
 		if p < np {
 			doc[nextKey] = addr(p + 1)
 		} else {
@@ -515,8 +538,8 @@ func remoteCase(c *ev.Ctx, s *sim.Sim, r *rand.Rand, n int) {
 		}()
 		select {
 		case <-done:
-		case <-time.After(60 * time.Second):
-			c.Abandon("paging:remote:does-not-return", fmt.Sprintf("Harvest(%d) on a %s chain did not return within 60 s; layout %+v", nReq, l.Tail, l), d)
+		case <-time.After(15 * time.Second):
+			c.Abandon("paging:remote:does-not-return", fmt.Sprintf("Harvest(%d) on a %s chain did not return within 15 s; layout %+v", nReq, l.Tail, l), d)
 		}
 		c.Count("harvest_calls", 1)
 		visited := s.LogLen() - mark
@@ -590,6 +613,7 @@ func randomCase(r *rand.Rand) caseDesc {
 			l.Sizes[p] = 0
 		}
 	}
+	l.Decoys = r.Intn(2) == 0
 	if np > 1 && r.Intn(4) == 0 {
 		l.Broken = 1 + r.Intn(np-1)
 		l.BrokenK = []string{"number", "badtype", "notype", "list", "bool"}[r.Intn(5)]
